@@ -128,6 +128,42 @@ def generate():
                 for pos in positions(3):
                     yield ("parameter-twice", {"parameterReset"}, mk(with_attr(plain_fields(shape, 3), pos, "#[educe(%s)]" % meta)))
 
+    # ---- a parameter given twice, systematically: every ordered pair of spellings of every parameter of every trait at
+    # the field level and the type level - in particular a first occurrence that spells the value the builder starts from
+    # (`ignore = false`, `bound = true`, the default rank), which a repeat check keyed on the stored value cannot see
+    BOOL = lambda p: ["%s" % p, "%s = true" % p, "%s(true)" % p, "%s = false" % p, "%s(false)" % p]
+    METHOD = ["method(m)", "method = m", 'method = "m"']
+    RANK = ["rank = 1", "rank(1)", 'rank = "1"', "rank = -9223372036854775808", "rank(0)", "rank = -9223372036854775807"]
+    BOUND = ["bound(*)", "bound = false", 'bound = ""', "bound()", "bound(T: Copy)", "bound = true", 'bound = "T: Copy"']
+    field_params = {"Debug": [BOOL("ignore"), METHOD], "PartialEq": [BOOL("ignore"), METHOD], "Hash": [BOOL("ignore"), METHOD],
+                    "PartialOrd": [BOOL("ignore"), METHOD, RANK], "Ord": [BOOL("ignore"), METHOD, RANK], "Clone": [METHOD],
+                    "Default": [["expression = 1", "expr = 2", "expr(1)", "expression(3)"]]}
+    for t, groups in field_params.items():
+        type_sets = [[t]] + ([["Ord", "PartialOrd"]] if t in ("Ord", "PartialOrd") else []) + ([["PartialEq", "Eq"]] if t == "PartialEq" else [])
+        for spell in groups:
+            for a, b in itertools.product(spell, spell):
+                for traits in type_sets:
+                    meta = "%s(%s, %s)" % (t, a, b)
+                    yield ("parameter-twice-pairs/field/" + t, {"parameterReset"},
+                           item("struct", "S", ["#[educe(%s)]" % ", ".join(traits)], [("", "tuple", [], with_attr(plain_fields("tuple", 2), 1, "#[educe(%s)]" % meta))]))
+                if t != "Default":
+                    yield ("parameter-twice-pairs/field/" + t, {"parameterReset"},
+                           item("enum", "E", ["#[educe(%s)]" % t], [("A", "unit", [], []), ("B", "named", [], with_attr(plain_fields("named", 2), 0, "#[educe(%s(%s, %s))]" % (t, a, b)))]))
+    type_params = {"Debug": [BOUND, BOOL("named_field"), ["name = A", "rename = B", "name(A)", "name = false", 'name = "A"']],
+                   "Clone": [BOUND], "Copy": [BOUND], "PartialEq": [BOUND], "Eq": [BOUND], "Hash": [BOUND], "PartialOrd": [BOUND], "Ord": [BOUND],
+                   "Default": [BOUND, BOOL("new")]}
+    for t, groups in type_params.items():
+        for spell in groups:
+            for a, b in itertools.product(spell, spell):
+                yield ("parameter-twice-pairs/type/" + t, {"parameterReset"},
+                       item("struct", "S", ["#[educe(%s(%s, %s))]" % (t, a, b)], [("", "tuple", [], plain_fields("tuple", 2, "T"))], "<T>"))
+    for a, b in itertools.product(BOUND, BOUND):
+        yield ("parameter-twice-pairs/type/Into", {"parameterReset"}, item("struct", "S", ["#[educe(Into(u8, %s, %s))]" % (a, b)], [("", "tuple", [], plain_fields("tuple", 1))]))
+    for a, b in itertools.product(BOOL("named_field") + ["name = A", "name = false"], repeat=2):
+        if a.split()[0].split("(")[0] == b.split()[0].split("(")[0]:
+            yield ("parameter-twice-pairs/variant/Debug", {"parameterReset"},
+                   item("enum", "E", ["#[educe(Debug)]"], [("A", "unit", [], []), ("B", "tuple", ["#[educe(Debug(%s, %s))]" % (a, b)], plain_fields("tuple", 1))]))
+
     # ---- a rank given twice (explicit/explicit, explicit/default in both orders, different spellings)
     imin = -9223372036854775808
     for t in ["Ord", "PartialOrd"]:
